@@ -1,6 +1,7 @@
 package main
 
 import (
+	"go/token"
 	"strings"
 
 	"golang.org/x/tools/go/ssa"
@@ -95,7 +96,16 @@ func runC07(r *R) {
 				gP, _ = Guard(fn, ph.(ssa.Instruction), ret, ErrNilC(ph))
 				gX, _ = Guard(fn, ph.(ssa.Instruction), ret, FalseC("expiryTime.Before(time.Now())", func(v ssa.Value) bool {
 					c, ok := Resolve1(v).(*ssa.Call)
-					return ok && CalleeName(c.Common()) == "(time.Time).Before" && IsResultOfCall(Resolve1(c.Call.Args[0]), ph.Value(), 0) && isTimeNow(c.Call.Args[1])
+					if !ok {
+						return false
+					}
+					switch CalleeName(c.Common()) {
+					case "(time.Time).Before": // expiry.Before(now)
+						return IsResultOfCall(Resolve1(c.Call.Args[0]), ph.Value(), 0) && isTimeNow(c.Call.Args[1])
+					case "(time.Time).After": // now.After(expiry)
+						return isTimeNow(c.Call.Args[0]) && IsResultOfCall(Resolve1(c.Call.Args[1]), ph.Value(), 0)
+					}
+					return false
 				}))
 			}
 			gS, _ := Guard(fn, nil, ret, EqC("signatureHex == makePermSignature(…)", func(v ssa.Value) bool { return isGroup(v, m, 6) }, func(v ssa.Value) bool {
@@ -127,7 +137,7 @@ func runC07(r *R) {
 		for _, ret := range Returns(fn) {
 			v := ret.Results[0]
 			if same(v, loc) {
-				g := GuardOrPass(fn, nil, ret, nil, EqC("len(secret)==0", lenVP, ConstIntVP(0)), EqC("apiToken==\"\"", Is(paramOf(fn, "apiToken")), ConstStrVP("")))
+				g := GuardOrPass(fn, nil, ret, nil, IntC("len(secret)==0", lenVP, token.EQL, 0, true), EqC("apiToken==\"\"", Is(paramOf(fn, "apiToken")), ConstStrVP("")))
 				r.Check(g, "C07-R3", fn, "return blobLocator (unsigned)", ret.Pos(), "only when no key or no token", "locator can be returned unsigned although a key and a token are present")
 				continue
 			}
@@ -145,17 +155,7 @@ func runC07(r *R) {
 				if ok {
 					a := c.Call.Args
 					// a[0] = strings.Split(blobLocator, "+")[0]
-					hashOK := false
-					if u, isU := Resolve1(a[0]).(*ssa.UnOp); isU {
-						if ia, isIA := u.X.(*ssa.IndexAddr); isIA {
-							k, _ := ConstInt(ia.Index)
-							sp, isSp := Resolve1(ia.X).(*ssa.Call)
-							if isSp && CalleeName(sp.Common()) == "strings.Split" && same(sp.Call.Args[0], loc) && k == 0 {
-								sep, _ := ConstString(sp.Call.Args[1])
-								hashOK = sep == "+"
-							}
-						}
-					}
+					hashOK := firstPlusField(a[0], loc)
 					tsOK := false
 					if f, args, isS := SprintfCall(a[2]); isS && f == "%08x" && len(args) == 1 {
 						if u, isC := Resolve1(args[0]).(*ssa.Call); isC && CalleeName(u.Common()) == "(time.Time).Unix" && same(u.Call.Args[0], paramOf(fn, "expiry")) {
@@ -281,4 +281,49 @@ func runC07(r *R) {
 			r.Check(okTok, "C07-R6", fn, "SignLocator(…, GetAPIToken(req), …)", c.Pos(), "signed for the requesting token", "PUT response signed for a token other than the request's")
 		}
 	}
+}
+
+// firstPlusField: v is the part of loc before its first "+" (the block hash), however it is cut out:
+// strings.Split/SplitN(loc, "+")[0], or loc[:strings.IndexByte(loc, '+')] with loc itself when there is no "+".
+func firstPlusField(v, loc ssa.Value) bool {
+	ok := true
+	n := 0
+	for _, l := range PhiLeaves(v) {
+		if l == nil {
+			return false
+		}
+		n++
+		if same(l, loc) {
+			continue
+		}
+		if u, isU := l.(*ssa.UnOp); isU {
+			if ia, isIA := u.X.(*ssa.IndexAddr); isIA {
+				k, _ := ConstInt(ia.Index)
+				sp, isSp := Resolve1(ia.X).(*ssa.Call)
+				if isSp && k == 0 && same(sp.Call.Args[0], loc) {
+					nm := CalleeName(sp.Common())
+					sep, _ := ConstString(sp.Call.Args[1])
+					if (nm == "strings.Split" || nm == "strings.SplitN") && sep == "+" {
+						continue
+					}
+				}
+			}
+		}
+		if x, lo, hi, isS := SliceParts(l); isS && lo == nil && hi != nil && same(x, loc) {
+			if c, isC := Resolve1(hi).(*ssa.Call); isC && same(c.Call.Args[0], loc) {
+				switch CalleeName(c.Common()) {
+				case "strings.IndexByte":
+					if k, isK := ConstInt(c.Call.Args[1]); isK && k == '+' {
+						continue
+					}
+				case "strings.Index":
+					if sep, _ := ConstString(c.Call.Args[1]); sep == "+" {
+						continue
+					}
+				}
+			}
+		}
+		ok = false
+	}
+	return ok && n > 0
 }
